@@ -41,6 +41,9 @@ def gen_loc_forest(rng):
             d.attrs = [a for a in d.attrs if a[0] not in ("const_value", "low_pc", "high_pc", "stmt_list", "data_member_location")]
             at = rng.choice(["location", "location", "location", "frame_base", "data_member_location"]) if version >= 3 else "location"
             k = rng.random()
+            if k < 0.5 and rng.random() < 0.4:
+                # the other attributes of the location class (expression form only): decoded by attribute name when the form is a block
+                at = rng.choice(LOC_CLASS)
             if k < 0.5 or at == "data_member_location":
                 ops, exp = dwloc.gen_expr(rng, version, types)
                 form = "exprloc" if version >= 4 else rng.choice(["block1", "block1", "block2", "block4", "block"])
@@ -111,6 +114,9 @@ def operand_ok(desc, val, unit):
     return False
 
 
+LOC_CLASS = ["data_location", "return_addr", "static_link", "use_location", "vtable_elem_location", "string_length"]
+
+
 def check_locations(d, f, w, truth, path, tag, out, bad):
     inp = "d:" + common.hx(path)
     by_at = {}
@@ -131,6 +137,10 @@ def check_locations(d, f, w, truth, path, tag, out, bad):
             if len(elems) != len(t["elems"]):
                 bad.append(("location-element-count-differs", dict(file=tag, die=hex(off), want=len(t["elems"]), got=len(elems)))); return
             for k, (e, te) in enumerate(zip(elems, t["elems"])):
+                if len(e["v"]) != 6 or e["v"][4]["t"] != "lle":
+                    what = [x["t"] for x in e["v"]]
+                    bad.append(("location-attribute-not-decoded-as-location:%s:%s" % (at, "exprloc" if t["unit"].version >= 4 else "block"),
+                                dict(file=tag, die=hex(off), at=at, yielded_types=what, shows=[x.get("sh", "")[:60] for x in e["v"]][-2:]))); return
                 addr, length, el, rel, lle, lpos = e["v"]
                 out["elements"] += 1
                 if int(lpos["v"]) != k:
@@ -156,7 +166,8 @@ def check_locations(d, f, w, truth, path, tag, out, bad):
                     bad.append(("relem-is-not-elem-reversed", dict(file=tag, die=hex(off), elem=k))); return
     # ?OP_x <=> some operation has that opcode
     probes = " ".join("[L ?OP_%s]" % o for o in PROBE_OPS)
-    r = d.run("entry (|D| D (@AT_location, @AT_frame_base, @AT_data_member_location) ?(type == T_LOCLIST_ELEM) (|L| L %s))" % probes, inp=inp, fuel=0, max=1000000, timeout=600)
+    r = d.run("entry (|D| D (%s) ?(type == T_LOCLIST_ELEM) (|L| L %s))" % (", ".join("@AT_" + a for a in ["location", "frame_base", "data_member_location"] + LOC_CLASS), probes),
+              inp=inp, fuel=0, max=1000000, timeout=600)
     if r["st"] == "done":
         for s in r["res"]:
             lle = s[-1 - len(PROBE_OPS)]
